@@ -4,10 +4,9 @@
 // order-normalised dump must equal the dump before or after the interrupted query / transaction.
 use crate::dbdump::*;
 use crate::dbgen::*;
-use crate::dbq::*;
 use crate::dbrun::{exec_step, show_step, Step};
 use crate::rng::Rng;
-use crate::walrun::{install_hook, read_file, wal_name};
+use crate::walrun::{install_hook, wal_name, Rec, SdOp, OPS};
 use agdb::verif::set_fs_hook;
 use agdb::*;
 use std::collections::BTreeMap;
@@ -60,14 +59,14 @@ fn reopen_dump(path: &str, variant: u64) -> Result<String, (String, String)> {
     }
 }
 
-pub fn run_history(rng: &mut Rng, dir: &str, idx: usize, mapped: bool, max_steps: u64, out: &mut Out) {
+pub fn run_history(rng: &mut Rng, dir: &str, idx: usize, mapped: bool, max_steps: u64, sample_permille: u64, out: &mut Out) {
     let path = format!("{}/c{}.agdb", dir, idx);
     let wal_path = wal_name(&path);
     let _ = std::fs::remove_file(&path);
     let _ = std::fs::remove_file(&wal_path);
     out.histories += 1;
     // snapshots of the creation of the database are checked too: expected = empty db (either side)
-    let hs = install_hook(&path, rng.next());
+    let hs = install_hook(&path, rng.next(), sample_permille);
     let mut dumps: Vec<String> = vec![];           // dump after step k (dumps[0] = after creation)
     let mut bounds: Vec<usize> = vec![];            // number of snapshots taken when step k finished
     let mut log: Vec<String> = vec![];
@@ -85,7 +84,18 @@ pub fn run_history(rng: &mut Rng, dir: &str, idx: usize, mapped: bool, max_steps
                     Step::Txn(rng.chance(1, 3), (0..k).map(|_| gen_mut(rng, &live, profile)).collect())
                 } else { Step::Exec(gen_mut(rng, &live, profile)) };
                 log.push(show_step(&step));
+                let ops_before = OPS.lock().unwrap().len();
                 let r = exec_step(db, &step);
+                {
+                    // C03: the byte store sees exactly one flush per query / transaction, as its last call
+                    let ops = OPS.lock().unwrap();
+                    let mine = &ops[ops_before..];
+                    let flushes: Vec<usize> = mine.iter().enumerate().filter(|(_, (o, _))| matches!(o, SdOp::Flush)).map(|(i, _)| i).collect();
+                    if !mine.is_empty() && !(flushes.len() == 1 && flushes[0] + 1 == mine.len()) {
+                        out.oracle.push(format!("crash-inner-flush flushes_at={:?} of {} storage calls step={} history=[{}]", flushes, mine.len(), show_step(&step), log.join(" ;; ")));
+                    }
+                    bump(out, &format!("sd-calls-per-step:{}", match mine.len() { 0 => "0", 1..=10 => "1-10", 11..=100 => "11-100", _ => ">100" }));
+                }
                 if r == "panic" { out.oracle.push(format!("panic step={} history=[{}]", show_step(&step), log.join(" ;; "))); break; }
                 dumps.push(show_obs(&observe(&*db), false));
                 bounds.push(hs.lock().unwrap().snaps.len());
@@ -93,7 +103,9 @@ pub fn run_history(rng: &mut Rng, dir: &str, idx: usize, mapped: bool, max_steps
         }};
     }
     let r = catch_unwind(AssertUnwindSafe(|| -> Result<(), DbError> {
-        if mapped { let mut db = Db::new(&path)?; drive!(&mut db); } else { let mut db = DbFile::new(&path)?; drive!(&mut db); }
+        OPS.lock().unwrap().clear();
+        if mapped { let mut db = DbImpl::with_data(Rec::<FileStorageMemoryMapped>::new(&path)?)?; drive!(&mut db); }
+        else { let mut db = DbImpl::with_data(Rec::<FileStorage>::new(&path)?)?; drive!(&mut db); }
         Ok(())
     }));
     set_fs_hook(None);
